@@ -21,6 +21,7 @@ func init() {
 }
 
 type scenario struct {
+	directed [][]directive // hand-placed interleavings for this scenario (known dangerous windows)
 	name    string
 	setup   []sop   // run by a setup handle (id = len(scripts)) to completion first
 	scripts [][]sop // handles 0..n-1, all start with "open"
@@ -116,7 +117,18 @@ func runExecution(c *ctx, sc scenario, s schedule, idx int) (string, int) {
 	return strings.Join(rendered, " "), e.steps
 }
 
+func fmtDirected(d []directive) string {
+	var p []string
+	for _, x := range d {
+		p = append(p, fmt.Sprintf("%d~%s~%d", x.h, x.until, x.n))
+	}
+	return strings.Join(p, "+")
+}
+
 func fmtSchedule(s schedule) string {
+	if s.directed != nil {
+		return "directed=" + fmtDirected(s.directed)
+	}
 	var sw []string
 	for k := range s.switches {
 		sw = append(sw, fmt.Sprint(k))
@@ -195,6 +207,33 @@ func stackScenarios(which string) []scenario {
 		scripts: [][]sop{opens(op("compactall")), opens(add(23), op("read"), add(24), op("read"))}})
 	// stale handle histories (C09): handle 0 goes stale through handle 1
 	out = append(out, scenario{name: "stale:add", setup: base3, scripts: [][]sop{opens(add(11), add(12), op("read")), opens(add(21), op("compactall"), add(22))}})
+	// a stale handle holding exactly one table while the list names exactly one other table
+	out = append(out, scenario{name: "stale1:compact", setup: []sop{add(100)},
+		scripts: [][]sop{opens(add(11), op("read"), add(12)), opens(add(21), op("compactall"))}})
+	out = append(out, scenario{name: "stale1:expire", setup: []sop{add(100)},
+		scripts: [][]sop{opens(add(11), op("read")), opens(op("expire"), op("read"))}})
+	out = append(out, scenario{name: "stale1:autocompact", setup: []sop{add(100)},
+		scripts: [][]sop{opens(add(11), op("read")), opens(addAuto(21), addAuto(22), op("read"))}})
+	// partial-range compactions: a handle that is behind closes / reloads after a LOWER range was compacted
+	cmp := func(f, l int) sop { return sop{kind: "compact", first: f, last: l} }
+	out = append(out, scenario{name: "low:compact|close", setup: base3,
+		scripts: [][]sop{opens(op("read"), op("close")), opens(cmp(0, 1), op("read"))}})
+	out = append(out, scenario{name: "low:compact|add", setup: base3,
+		scripts: [][]sop{opens(add(11), op("read")), opens(cmp(0, 1), add(21), op("read"))}})
+	out = append(out, scenario{name: "low:compact|compact-high", setup: append(base3, add(103)),
+		scripts: [][]sop{opens(cmp(0, 1), op("read")), opens(cmp(2, 3), op("read"))}})
+	// a reader that is behind by a lower compaction reloads while the tables on top are compacted away
+	out = append(out, scenario{name: "behind:reload-vs-high-compact", setup: base3,
+		scripts: [][]sop{opens(add(11), op("read"), add(12), op("read")), opens(cmp(0, 1), add(21), add(22)), opens(cmp(2, 3), op("read"))},
+		directed: [][]directive{
+			{{0, "call:add", 1}, {1, "", 0}, {2, "call:compact", 1}, {0, "open:T", 1}, {2, "", 0}, {0, "", 0}},
+			{{0, "call:add", 1}, {1, "", 0}, {2, "call:compact", 1}, {0, "open:T", 2}, {2, "", 0}, {0, "", 0}},
+			{{0, "call:add", 1}, {1, "", 0}, {2, "call:compact", 1}, {0, "read_file:L", 2}, {2, "", 0}, {0, "", 0}},
+			{{0, "call:add", 1}, {1, "", 0}, {2, "call:compact", 1}, {0, "read_file:L", 3}, {2, "rename:LL", 1}, {0, "", 0}, {2, "", 0}},
+		}})
+	// a multi-table Addition whose second table claims an update index the first already used: must be refused
+	out = append(out, scenario{name: "addmulti-same|add", setup: base3,
+		scripts: [][]sop{opens(sop{kind: "addmulti", tx: 15, same: true}, op("read")), opens(add(21), op("read"))}})
 	// three handles
 	out = append(out, scenario{name: "3:add|compact|add", setup: base3,
 		scripts: [][]sop{opens(add(11)), opens(op("compactall")), opens(add(31), op("read"))}})
@@ -229,6 +268,9 @@ func runStack(c *ctx, which string) error {
 			break
 		}
 		nh := len(sc.scripts)
+		for _, d := range sc.directed {
+			emit(sc, schedule{directed: d})
+		}
 		// non-pre-emptive runs for every starting handle; learn the number of steps
 		total := 0
 		for f := 0; f < nh; f++ {
